@@ -412,7 +412,11 @@ func checkProgramB(t ev.T, test string, p Program) {
 					fmt.Fprintf(os.Stderr, "TRACE %s %d %s tree=%v\n", kind, i, c, before)
 				}
 				box.Backend.StartBudget(workBound)
+				uncleanPaths = nil
 				ev.Guard(t, prop, test, p, func() { _ = run(box.FS, root, c) })
+				if len(uncleanPaths) > 0 {
+					ev.Fail(t, prop, test, p, "%s backend, call %d %s returned a path that is not in clean form: %q", kind, i, c, uncleanPaths[0])
+				}
 				// (i) it terminates, with a bounded amount of work
 				if box.Backend.Overran() {
 					ev.Fail(t, prop, test, p, "%s backend, call %d %s: more than %d backend operations on a tree of %d entries (unbounded work)", kind, i, c, workBound, len(before))
